@@ -110,6 +110,10 @@ def gen_cases(chk, tier):
     for n in ((1, 2, 3, 1000) if tier == "quick" else (1, 2, 3, 1000, 10000, 100000)):
         for pair in ((0, 0), (0, 2), (1, 5)):
             cases.append(G.case(rng, n_grains=n, pair=pair))
+    # near ties of slip-system activity (relative gap 0 .. 5e-10, opposite and equal signs of the invariants; own stream)
+    cases += G.near_tie_cases(chk.seed, tier)
+    # block-boundary grain counts (independent stream: the cases above are unchanged)
+    cases += G.block_cases(np.random.default_rng([chk.seed, 0xB10C]), tier)
     return cases
 
 
@@ -124,9 +128,12 @@ def compare(chk, core, cases, entry="derivs", rtol=1e-9):
         r = impl(core, c)
         key = (c["regime"], c["phase"], c["fabric"]) + tuple(c.get("kinds", ()))
         hist[str(key[:3])] = hist.get(str(key[:3]), 0) + 1
-        near = G.near_discontinuity(c)
+        cls = G.tie_class(c)
+        near = cls == "discontinuous"
         if near:
             chk.cov["near_discontinuity"] = chk.cov.get("near_discontinuity", 0) + 1
+        elif cls == "continuous":      # near tie among the most active systems: the model is continuous there, compared at 1e-7
+            chk.cov["near_tie_compared"] = chk.cov.get("near_tie_compared", 0) + 1
         trivial = r[0] == "OK" and not np.any(r[1]) and not np.any(r[2])
         chk.note_case((entry, c["regime"], c["phase"], c["fabric"], c["ng"], c["O"].tobytes(), c["L"].tobytes(), c["f"].tobytes()),
                       nontrivial=not trivial,
@@ -140,7 +147,7 @@ def compare(chk, core, cases, entry="derivs", rtol=1e-9):
                 bad.append((c, f"implementation: {r[:2]}, model: {m[:2] if m[0]=='ERR' else 'OK'}"))
             continue
         flat = list(r[1].reshape(-1)) + list(r[2])
-        okc, idx = common.vec_close(flat, m[1], rtol=rtol)
+        okc, idx = common.vec_close(flat, m[1], rtol=rtol if cls == "none" else max(rtol, 1e-7))
         if not okc and not near:
             a = flat[idx] if 0 <= idx < len(flat) else None
             b = m[1][idx] if 0 <= idx < len(m[1]) else None
@@ -153,7 +160,7 @@ def search(chk, core, extra=()):
     rng = np.random.default_rng(chk.seed + 1)
     found = []
     seen = set()
-    pool = list(extra) + [c for c in gen_cases(chk, "quick") if c["ng"] <= 64]
+    pool = list(extra) + [c for c in gen_cases(chk, "quick") if c["ng"] <= 64] + search_block_pool(chk)
     for c in pool:
         fails = oracle(core, c)
         if fails:
@@ -165,6 +172,11 @@ def search(chk, core, extra=()):
             if len(found) >= 3:
                 break
     return found
+
+
+def search_block_pool(chk, cap=4100):
+    """block-boundary sizes in increasing order (the first failing one is the smallest tested)"""
+    return G.block_cases(np.random.default_rng([chk.seed, 0xB10C, 1]), "quick", cap=cap, both_regimes_upto=cap)
 
 
 def shrink(core, c):
@@ -190,7 +202,10 @@ def run(chk):
     chk.cov["rule"] = ("cases = structured degenerate stream (all valid phase/fabric pairs x both dislocation regimes x aligned / near-aligned "
                        "orientations x flow families x volumes with zeros / one dominant grain; all 24 axis-aligned orientations) + seeded random "
                        "(Haar orientations, 5 flow families, 4 volume families, p in [1,2], n in [2,5], lam in [0,10], M in [0,200], phi in (0,1], "
-                       "n_grains 1..64 and 1e3 [thorough: up to 1e5]); distinct = distinct (regime, phase, fabric, n, O, L, f) byte-wise; "
+                       "n_grains 1..64 and 1e3 [thorough: up to 1e5]) + near ties of slip-system activity (every olivine fabric x every pair of systems with independent invariants x "
+                       "opposite / equal signs, relative gap 0..5e-10, and grains rotated about [100] to the tie angle in simple shear; compared at 1e-7 when the tie is among the "
+                       "most active systems, where the model is continuous; excluded only when the least active system is involved) + block-boundary grain counts (2^k - 1, 2^k, 2^k + 1 for k <= 14 [thorough 16], "
+                       "multiples of 64/128/256/1000/1024; both regimes up to 2049 grains); distinct = distinct (regime, phase, fabric, n, O, L, f) byte-wise; "
                        "non-trivial = not all returned rates are zero")
     bad = []
     if br.drivers.get("core", 1) is None:
